@@ -306,8 +306,15 @@ func main() {
 	seed := flag.Uint64("seed", 1, "seed")
 	tier := flag.String("tier", "quick", "tier")
 	_ = flag.String("replay", "", "unused: cases are regenerated from the seed")
-	stage := flag.String("stage", "layers", "layers|layerfile|bytes")
+	stage := flag.String("stage", "layers", "layers|layerfile|bytes|e2e")
 	flag.Parse()
+	if *stage == "e2e" {
+		if err := e2eStage(*out, *seed, *tier); err != nil {
+			fmt.Fprintln(os.Stderr, "c06:", err)
+			os.Exit(2)
+		}
+		return
+	}
 	if *stage == "bytes" {
 		if err := bytesStage(*out, *seed, *tier); err != nil {
 			fmt.Fprintln(os.Stderr, "c06:", err)
